@@ -151,9 +151,9 @@ PROPS["C09"] = dict(
     level="exploration",
     engine="E1",
     parts=[dict(bin="e1_rcl")],
-    rule="case = (list of strings, block size k); ALL sequences of length <= N over the short alphabet {\"\", a, ab, abc, abd, b, e-acute, e-acute a, U+10FFFF}; all sequences of length <= 3 containing at least one of a^127, a^128, a^129 b (rear lengths crossing 127/128); sequences of length <= 2 (thorough 3) containing a^16511 or a^16512 c (crossing 16511/16512); sorted word lists of 150 (thorough 600) strings with shared prefixes for k up to 64; sorted, unsorted and duplicate-bearing lists all occur; non-trivial = at least 2 strings",
+    rule="case = (list of strings, block size k); ALL sequences of length <= N over the short alphabet {\"\", a, ab, abc, abd, b, e-acute, e-acute a, U+10FFFF}; all sequences of length <= 3 containing at least one of a^127, a^128, a^129 b (rear lengths crossing 127/128); sequences of length <= 2 (thorough 3) containing a^16511 or a^16512 c (crossing 16511/16512); the rear-length family [x^r, y] for EVERY r <= 1500 (thorough 40 000) and offsets with pairwise different bytes inside the 2-, 3- and 4-byte classes of the variable-byte code (thorough: a stride through the 3- and 4-byte classes and the 4/5-byte boundary, 270 MB strings); sorted word lists of 150 (thorough 600) strings with shared prefixes for k up to 64; sorted, unsorted and duplicate-bearing lists all occur; non-trivial = at least 2 strings",
     alphabet="k in {1,2,3,4,5} (sorted word lists also 8,16,64); probes: every alphabet string, proper prefixes/extensions, strings sorting before/between/after",
-    bound={"quick": "N=5", "thorough": "N=6; rear lengths crossing 2 113 664 (third code boundary) with 2 MB strings"},
+    bound={"quick": "N=6", "thorough": "N=7; rear lengths crossing 2 113 664 (third code boundary) with 2 MB strings"},
     oracle="Vec<String>: len, get(i), get_in_place(i) all i; iter/lend/into_lender/into_iter and iter_from(j)/lend_from(j)/into_iter_from(j) for every j in 0..=n with exact remaining length before every next; index_of(s) returns an index holding s iff s was pushed, contains agrees; get(n) panics",
     assumptions=STRICT,
 )
@@ -244,12 +244,13 @@ TECHNIQUE["C17"] = "exhaustive fault-position enumeration with fault-injecting s
 PROPS["C13"] = dict(
     level="model_checking",
     engine="E3",
-    parts=[dict(bin="e3_sched", timeout_s={"quick": 1200, "thorough": 14400})],
+    parts=[dict(bin="e3_sched", timeout_s={"quick": 1200, "thorough": 14400}),
+           dict(bin="e3_free", runner="miri", profile="miri", shards=8, tiers=["thorough"], tag="race-detector")],
     rule="case = one concurrent body (2-3 real threads, 1-2 operations each) explored over all schedules within the preemption bound: (1) AtomicBitVec: ALL unordered pairs of single operations from {set(i,b), swap(i,b), get(i)} x i in {0,1,63,64} (same bit, same word, adjacent words) plus 3-thread swaps on one shared bit and 2-op programs; (2) AtomicBitFieldVec<u8|u16|usize> for widths {1,3,5,7}/{5,11}/{5,13,63}: ALL pairs and (half of / thorough: all) triples of distinct indices among the first 6 elements (same word both inside; adjacent; straddling + inside its low / high word; two straddlers sharing a word), each writer storing one value (thorough: two), plus two writers around an element read concurrently by a third thread; (3) EliasFanoConcurrentBuilder: 6 value sets (l = 0 and l > 0, low parts / high bits sharing a word), EVERY partition of the indices into 2 and 3 threads, ascending and descending order inside a thread",
     alphabet="scheduling points = every atomic load / store / RMW / compare-exchange iteration performed through the hooked slices of AtomicBitVec::{get,set,swap}_unchecked and AtomicBitFieldVec::{get,set}_atomic_unchecked",
     bound={"quick": "preemption bound 2 (bodies with <= 2 operations: unbounded); horizon 10000 points", "thorough": "preemption bound 3"},
     oracle="AtomicBitVec: return values and final bits explained by some sequential order of the operations (brute force over all merges); AtomicBitFieldVec: every written element holds its writer's value, every other element unchanged, a concurrent reader of an unwritten element sees its value; EliasFano: the concurrently built structure answers get/iter/succ/pred/index_of like the sequentially built one; a failing schedule is replayed twice and must reproduce",
-    assumptions=STRICT + ["sequentially consistent interleavings at atomic-operation granularity; complete for what C13 observes (values after join, return values of single-word RMWs) because per-location modification order is total under every memory ordering and distinct words are independent in both observations (DESIGN.md section 2.3)", "every shared access in these methods is an atomic operation routed through the hooked slice (no unsynchronised shared data)"],
+    assumptions=STRICT + ["sequentially consistent interleavings at atomic-operation granularity; complete for what C13 observes (values after join, return values of single-word RMWs) because per-location modification order is total under every memory ordering and distinct words are independent in both observations (DESIGN.md section 2.3)", "every shared access in these methods is an atomic operation routed through the hooked slice (no unsynchronised shared data) - the thorough tier supports this with a separate free-running pass (bin e3_free: the same kinds of bodies on unsynchronised threads under Miri's data-race detector, 8 scheduler seeds; counters race_detector_*), which is a companion check and not part of the exploration: it contributes no evaluations, states or transitions"],
     mc_note="states = complete executions (distinct schedules) run on the real code under the controlled scheduler; transitions = scheduling points; every execution is an execution of the implementation, so traces_validated_against_impl = transitions",
 )
 LEVEL_TEXT["C13"] = "Stateless model checking of the real code: real OS threads run the real atomic methods under a token-passing scheduler that owns every interleaving decision at atomic-operation granularity; all schedules within a preemption bound are explored by re-execution (CHESS-style iterative context bounding), with executions containing compare-exchange retries counted as proof that threads collided."
